@@ -48,7 +48,7 @@ func checkC02(c *Ctx) {
 			}
 			match := false
 			for _, w := range ref.Cells[k] {
-				if got == w {
+				if got == canonTable(w) {
 					match = true
 				}
 			}
@@ -173,9 +173,8 @@ func orderRules(c *Ctx, pp string) {
 		for _, f := range t.PkgFuncs(pp) {
 			byArg := map[string][]*ssa.Call{}
 			allInstrs(f, func(in ssa.Instruction) {
-				if call, ok := in.(*ssa.Call); ok && call.Call.StaticCallee() == eval && len(call.Call.Args) >= 2 {
-					p := path(call.Call.Args[1])
-					if strings.HasPrefix(p, "expr.") || strings.HasPrefix(p, "stmt.") {
+				if call, ok := in.(*ssa.Call); ok {
+					if p, isEv := evaluatedChild(call, eval); isEv && (strings.HasPrefix(p, "expr.") || strings.HasPrefix(p, "stmt.")) {
 						byArg[p] = append(byArg[p], call)
 					}
 				}
@@ -206,8 +205,11 @@ func orderRules(c *Ctx, pp string) {
 		r.Fn(relName(f))
 		var lhs, rhs []*ssa.Call
 		allInstrs(f, func(in ssa.Instruction) {
-			if call, ok := in.(*ssa.Call); ok && call.Call.StaticCallee() == eval {
-				p := path(call.Call.Args[1])
+			if call, ok := in.(*ssa.Call); ok {
+				p, isEv := evaluatedChild(call, eval)
+				if !isEv {
+					return
+				}
 				switch {
 				case strings.HasSuffix(p, ".LHS"):
 					lhs = append(lhs, call)
@@ -233,6 +235,43 @@ func orderRules(c *Ctx, pp string) {
 			shortCircuit(c, tag, f, lhs[0], rhs[0])
 		}
 	}
+}
+
+// evaluatedChild: the call evaluates a child node — it is the evaluator itself called on that node, or a
+// same-package helper that hands one of its node parameters to the evaluator (exactly once, outside loops); returns
+// the access path of the node.
+func evaluatedChild(call *ssa.Call, eval *ssa.Function) (string, bool) {
+	cal := call.Call.StaticCallee()
+	if cal == nil {
+		return "", false
+	}
+	if cal == eval && len(call.Call.Args) >= 2 {
+		return path(call.Call.Args[1]), true
+	}
+	if cal.Pkg != eval.Pkg || len(cal.Blocks) == 0 {
+		return "", false
+	}
+	for k, prm := range cal.Params {
+		if k >= len(call.Call.Args) {
+			break
+		}
+		n := 0
+		inLoop := false
+		allInstrs(cal, func(in ssa.Instruction) {
+			if c2, ok := in.(*ssa.Call); ok && c2.Call.StaticCallee() == eval && len(c2.Call.Args) >= 2 && c2.Call.Args[1] == ssa.Value(prm) {
+				n++
+				for _, l := range naturalLoops(cal) {
+					if l.Blocks[c2.Block()] {
+						inLoop = true
+					}
+				}
+			}
+		})
+		if n == 1 && !inLoop {
+			return path(call.Call.Args[k]), true
+		}
+	}
+	return "", false
 }
 
 // shortCircuit: in RunConditionExpr there are two paths that return a constant boolean without reaching the RHS
@@ -438,30 +477,106 @@ func foldRules(c *Ctx) {
 		return
 	}
 	r.Fn(relName(nu), relName(na))
-	// every store of a negated literal value is controlled by op.Typ == SUB
-	n := 0
-	allInstrs(nu, func(in ssa.Instruction) {
-		s, ok := in.(*ssa.Store)
-		if !ok {
-			return
-		}
-		u, ok := s.Val.(*ssa.UnOp)
-		if !ok || u.Op != token.SUB {
-			return
-		}
-		n++
-		g := false
-		for _, ec := range controlling(s.Block()) {
-			if bo, ok := ec.Cond.(*ssa.BinOp); ok && bo.Op == token.EQL && ec.Pol && strings.HasSuffix(path(bo.X), ".Typ") {
-				if v, ok := constInt(bo.Y); ok && v == sub {
-					g = true
+	// helpers of the two constructors (one level): the folding may live in a function they call
+	helpersOf := func(f *ssa.Function) map[*ssa.Function][]*ssa.Call {
+		m := map[*ssa.Function][]*ssa.Call{f: nil}
+		allInstrs(f, func(in ssa.Instruction) {
+			if call, ok := in.(*ssa.Call); ok {
+				if g := call.Call.StaticCallee(); g != nil && g != f && g.Pkg == f.Pkg && len(g.Blocks) > 0 && !strings.HasPrefix(g.Name(), "new") && g.Name() != "addParseErrf" {
+					m[g] = append(m[g], call)
 				}
 			}
+		})
+		return m
+	}
+	// factsThrough: the branch facts holding at `in` (a site in g), plus — when g is a helper — those holding at every
+	// call of g in the constructor
+	factsThrough := func(g *ssa.Function, sites []*ssa.Call, in ssa.Instruction) []edgeCond {
+		fs := append([]edgeCond{}, controlling(in.Block())...)
+		for i, cs := range sites {
+			cf := controlling(cs.Block())
+			if i == 0 {
+				fs = append(fs, cf...)
+			}
 		}
-		r.Ob("FOLD", fmt.Sprintf("newUnaryExpr negation #%d is under op == SUB", n), t.Pos(s.Pos()), g, "a literal may be negated only for a minus sign")
-	})
+		return fs
+	}
+	isTypEq := func(ec edgeCond, want ...int64) bool {
+		bo, ok := ec.Cond.(*ssa.BinOp)
+		if !ok || bo.Op != token.EQL || !ec.Pol || !strings.HasSuffix(path(bo.X), ".Typ") {
+			return false
+		}
+		v, ok := constInt(bo.Y)
+		if !ok {
+			return false
+		}
+		for _, w := range want {
+			if v == w {
+				return true
+			}
+		}
+		return false
+	}
+	// every store of a negated literal value is controlled by op.Typ == SUB
+	n := 0
+	hs := helpersOf(nu)
+	var hlist []*ssa.Function
+	for g := range hs {
+		hlist = append(hlist, g)
+	}
+	sortFuncs(hlist)
+	for _, g := range hlist {
+		allInstrs(g, func(in ssa.Instruction) {
+			s, ok := in.(*ssa.Store)
+			if !ok {
+				return
+			}
+			u, ok := s.Val.(*ssa.UnOp)
+			if !ok || u.Op != token.SUB {
+				return
+			}
+			n++
+			gd := false
+			for _, ec := range factsThrough(g, hs[g], s) {
+				if isTypEq(ec, sub) {
+					gd = true
+				}
+			}
+			r.Ob("FOLD", fmt.Sprintf("newUnaryExpr negation #%d is under op == SUB", n), t.Pos(s.Pos()), gd, "a literal may be negated only for a minus sign")
+		})
+	}
 	r.FloorN("literal negations in newUnaryExpr", n, 2)
 	// zero-divisor rejection only under DIV/MOD
+	zeroTest := func(ec edgeCond) bool {
+		if !ec.Pol {
+			return false
+		}
+		s := ec.String()
+		if strings.HasSuffix(s, "== 0") && strings.Contains(s, ".Val") {
+			return true
+		}
+		// a predicate helper: every comparison it makes is `<literal>.Val == 0`
+		if call, ok := ec.Cond.(*ssa.Call); ok {
+			g := call.Call.StaticCallee()
+			if g == nil || g.Pkg != na.Pkg || len(g.Blocks) == 0 {
+				return false
+			}
+			nz, other := 0, 0
+			allInstrs(g, func(in ssa.Instruction) {
+				bo, ok := in.(*ssa.BinOp)
+				if !ok || !strings.Contains(path(bo.X), ".Val") {
+					return
+				}
+				if bo.Op == token.EQL && isZeroConst(bo.Y) {
+					nz++
+				} else {
+					other++
+				}
+			})
+			return nz > 0 && other == 0
+		}
+		return false
+	}
 	m := 0
 	allInstrs(na, func(in ssa.Instruction) {
 		ret, ok := in.(*ssa.Return)
@@ -483,31 +598,35 @@ func foldRules(c *Ctx) {
 		m++
 		okOp, okZero := false, false
 		for _, ec := range controlling(ret.Block()) {
-			s := ec.String()
-			if bo, ok := ec.Cond.(*ssa.BinOp); ok && ec.Pol {
-				if v, isC := constInt(bo.Y); isC && (v == div || v == modv) && strings.HasSuffix(path(bo.X), ".Typ") {
-					okOp = true
-				}
-				if strings.HasSuffix(s, "== 0") && strings.Contains(s, ".Val") {
-					okZero = true
-				}
+			if isTypEq(ec, div, modv) {
+				okOp = true
+			}
+			if zeroTest(ec) {
+				okZero = true
 			}
 		}
-		// the op test is a switch with two cases: the return may be controlled by either case edge or the merged block
+		// the op test is a switch with two cases (or `a || b`): the return may be controlled by either case edge or
+		// the merged block — then a block testing op.Typ against DIV or MOD dominates it and nothing else leads there
 		if !okOp {
-			for _, b := range na.Blocks {
-				if iff, ok := b.Instrs[len(b.Instrs)-1].(*ssa.If); ok {
-					if bo, ok := iff.Cond.(*ssa.BinOp); ok {
-						if v, isC := constInt(bo.Y); isC && (v == div || v == modv) && b.Dominates(ret.Block()) {
-							okOp = true
-						}
+			// walk up to the join block; each of its incoming edges must be the true edge of `op.Typ == DIV|MOD`
+			x := ret.Block()
+			for len(x.Preds) == 1 {
+				x = x.Preds[0]
+			}
+			if len(x.Preds) >= 2 {
+				all := true
+				for _, pb := range x.Preds {
+					iff, isIf := pb.Instrs[len(pb.Instrs)-1].(*ssa.If)
+					if !isIf || pb.Succs[0] != x || !isTypEq(edgeCond{If: pb, Cond: iff.Cond, Pol: true}, div, modv) {
+						all = false
 					}
 				}
+				okOp = all
 			}
 		}
 		r.Ob("FOLD", fmt.Sprintf("newArithmeticExpr rejection #%d is for a literal zero divisor of / or %%", m), t.Pos(ret.Pos()), okOp && okZero, "only `x / 0`, `x % 0` with a literal zero may be rejected at parse time")
 	})
-	r.FloorN("parse-time rejections in newArithmeticExpr", m, 2)
+	r.FloorN("parse-time rejections in newArithmeticExpr", m, 1)
 }
 
 // opNameRule: parser.ItemTypeStr maps every operator token to the string of the like-named ast.Op constant.
